@@ -62,11 +62,14 @@ def run(res, tier, replay):
         joins = list(range(1, n))
         orders = list(itertools.permutations(joins))
         if len(orders) > (6 if tier == "quick" else 24): orders = rng.sample(orders, 6 if tier == "quick" else 24)
-        for order in orders:
+        for oi, order in enumerate(orders):
             sc = scenario.Scn()
-            for k, nm in enumerate(c.parts): sc.file("in%d.cab" % k, c.files[nm])
+            # in every other order one part (not the first) lies behind a stub inside its file and is found by search(): offsets inside it
+            # are relative to where it starts
+            emb = rng.randrange(1, n) if (oi % 2 == 0 and n > 1) else -1
+            for k, nm in enumerate(c.parts): sc.file("in%d.cab" % k, (bytes(rng.choice(b"stub \x00\xff") for _ in range(rng.choice([1, 777, 5000]))) if k == emb else b"") + c.files[nm])
             sc.op("cab_new").op("ledger_now")
-            for k in range(n): sc.op("cab_open", "c%d" % k, "in%d.cab" % k)
+            for k in range(n): sc.op("cab_search" if k == emb else "cab_open", "c%d" % k, "in%d.cab" % k)
             for k in order:
                 if rng.random() < 0.5: sc.op("cab_append", "c%d" % (k - 1), "c%d" % k)
                 else: sc.op("cab_prepend", "c%d" % k, "c%d" % (k - 1))
@@ -118,10 +121,10 @@ def run(res, tier, replay):
     # the recorded finding merge:order:later-parts-first (known_findings.json)
     r13 = random.Random(13)
     for _ in range(200):
-        c = gen.cab_set(r13); sp_ = spans(c); wide = [f for f, ps in sp_.items() if len(ps) >= 3]
+        c = gen.cab_set(r13); sp_ = spans(c); wide = [f for f, ps in sp_.items() if len(ps) >= 4]
         if not wide: continue
-        n = len(c.parts); ps = sorted(sp_[wide[0]]); k0 = ps[2]                       # join of the folder's second and third part first
-        order = tuple([k0] + [k for k in range(1, n) if k != k0])
+        n = len(c.parts); ps = sorted(sp_[wide[0]]); k0 = ps[2]; k1 = ps[3]           # the folder's second and third part first, then the fourth
+        order = tuple([k0, k1] + [k for k in range(1, n) if k not in (k0, k1)])
         sc = scenario.Scn()
         for k, nm in enumerate(c.parts): sc.file("in%d.cab" % k, c.files[nm])
         sc.op("cab_new").op("ledger_now")
